@@ -51,3 +51,18 @@ Theorem C11_code_init :
   forall o : option (list pterm), PolyhedralTermList_init o = opt_list o.
 Proof. exact @termlist_init_eq. Qed.
 Print Assumptions C11_code_init.
+
+(* ==== T1 tie (LP / numpy) ==== *)
+Require Import PyDict PyLoop PyTermList PyNumpy TermGen TermListGen PolyGen PolyGenBase PolyGenPolytope PolyGenEmpty.
+(* T1 tie: is_empty / is_polytope_empty as translated ON THIS RUN (gen/PolyGen.v) are poly_is_empty / is_polytope_empty of model/Poly.v. proofs/PolyGenEmpty.v *)
+Theorem C11_code_is_empty :
+  forall (O : oracle) (self : list pterm), @PolyhedralTermList_is_empty (poly_lp O) self = poly_is_empty O self.
+Proof. exact @is_empty_eq. Qed.
+Print Assumptions C11_code_is_empty.
+Theorem C11_code_is_polytope_empty :
+  forall (O : oracle) (vs : list var) (rows : list row),
+       @PolyhedralTermList_is_polytope_empty (poly_lp O) vs
+         (mat_of (@Datatypes.length var vs) (@map (list Q * Q) (list Q) (@fst (list Q) Q) rows))
+         (@A1 Q (@map (list Q * Q) Q (@snd (list Q) Q) rows)) = is_polytope_empty O vs rows.
+Proof. exact @is_polytope_empty_eq. Qed.
+Print Assumptions C11_code_is_polytope_empty.
